@@ -208,7 +208,10 @@ impl<T: ProgramAccount + BorshSerialize + BorshDeserialize> BorshAccount<T> {
     /// `Self`'s deserialized data.
     pub fn reload(&mut self) -> Result<()> {
         self.data = Some(T::try_from_slice(
-            &self.info.account_data()?[size_of::<OwnerProgramDiscriminant<T>>()..],
+            self.info
+                .account_data()?
+                .get(size_of::<OwnerProgramDiscriminant<T>>()..)
+                .ok_or(ProgramError::AccountDataTooSmall)?,
         )?);
         Ok(())
     }
